@@ -134,7 +134,14 @@ func (vc *FuncVC) addCover(st *State, name string) {
 }
 
 // relName gives the contract-file name of an SSA function.
+// closureAlias: a closure literal that was moved into an un-contracted helper keeps the contract
+// written for it under its old name (see Engine.resolveClosureAliases).
+var closureAlias = map[*ssa.Function]string{}
+
 func relName(fn *ssa.Function) string {
+	if a, ok := closureAlias[fn]; ok {
+		return a
+	}
 	if fn.Pkg == nil {
 		if fn.Parent() != nil {
 			return fn.String()
@@ -234,6 +241,9 @@ func describeValue(v ssa.Value) string {
 			return "var " + y.Name()
 		}
 		return "load"
+	case *ssa.ChangeType:
+		// a conversion that keeps the value (channel direction, named/unnamed type): described by its operand
+		return describeValue(x.X)
 	case *ssa.Parameter:
 		return "var " + x.Name()
 	case *ssa.FreeVar:
